@@ -175,9 +175,20 @@ def s2(ctx):
                     if not any(x == c['res'] for x in subterms(ret)):
                         ok = False
                         out.fail(key + '/ret', '%s: the scope closure does not return the reduction of the joined results' % ek, cb.where())
+                elif m == 'collect':
+                    # handles.into_iter().map(|h| h.join().expect(..)).collect(): every element is the unwrapped join of one handle
+                    e = I.normalize(I.elem(c['args'][0]))
+                    okc = e is not None and e[0] == 'call' and tcallee(e) in ('std::result::Result::expect', 'std::result::Result::unwrap') and \
+                        e[2][0][0] == 'call' and tcallee(e[2][0]) == 'std::thread::ScopedJoinHandle::join' and e[2][0][2][0][0] == 'elem'
+                    if not okc:
+                        ok = False
+                        out.fail(key + '/terminal', '%s: the collected element is %s, not `handle.join().expect(..)`' % (ek, t_str(e)[:120]), cb.where(c['line']))
+                    elif not any(x == c['res'] for x in subterms(ret)):
+                        ok = False
+                        out.fail(key + '/ret', '%s: the scope closure does not return the collected results of the joined workers' % ek, cb.where())
                 else:
                     ok = False
-                    out.fail(key + '/terminal', '%s: the join handles are consumed by `%s`; only `reduce(<entry operator>)` or a push loop is recognised' % (ek, m), cb.where(c['line']), kind='undecided')
+                    out.fail(key + '/terminal', '%s: the join handles are consumed by `%s`; only `reduce(<entry operator>)`, `collect` or a push loop is recognised' % (ek, m), cb.where(c['line']), kind='undecided')
                 out.inst(key, ok, 'chain %s over the handle vector' % names, sample={'entry': ek, 'adaptors': names, 'terminal': m})
         if not consumed:
             key = 'S2/%s/consume' % ek
@@ -1426,52 +1437,113 @@ def c14_window(ctx):
 
 
 # ======================================================================================= C01-RESERVE
+def bag_conversion_points(ctx):
+    """{body name: [(bb, converted term, line, via)]}: where a value of the body is turned into a positional (ordered) bag -
+    directly (`Into::into` / `From::from` with an ordered-bag destination) or by handing it to a crate helper that converts
+    the corresponding parameter (`map_into_pinned_vec(pinned_vec, ..)`)."""
+    key = 'bag_conversion_points'
+    if key in ctx.cache:
+        return ctx.cache[key]
+    F = ctx.facts
+    direct = {}
+    for b in F.fn_bodies():
+        for bb, t in b.calls():
+            if decl(t) in ('std::convert::Into::into', 'std::convert::From::from') and b.locals[t['dest']['l']]['head'] in BAG_HEADS and 'Ordered' in b.locals[t['dest']['l']]['head']:
+                direct.setdefault(b.name, []).append((bb, t))
+    points = {}
+    helper_params = {}       # helper -> set of parameter positions that are converted inside it
+    for bn, lst in direct.items():
+        b = F.bodies[bn]
+        r = ctx.run(bn)
+        names = [P(b.local_name(l) or '_%d' % l) for l in b.arg_locals()]
+        for bb, t in lst:
+            src = r.calls[bb]['args'][0] if bb in r.calls else None
+            base = base_strip(src) if src is not None else None
+            if base in names and base != P('self') and not b.is_closure():
+                helper_params.setdefault(bn, set()).add(names.index(base))
+            else:
+                points.setdefault(bn, []).append((bb, src, t.get('line'), 'conversion'))
+    for rounds in range(3):
+        grew = False
+        for b in F.fn_bodies():
+            for bb, t in b.calls():
+                h = callee_of(t)
+                if h in helper_params and t.get('local'):
+                    r = ctx.run(b.name)
+                    c = r.calls.get(bb)
+                    if c is None:
+                        continue
+                    names = [P(b.local_name(l) or '_%d' % l) for l in b.arg_locals()]
+                    for i in helper_params[h]:
+                        if i >= len(c['args']):
+                            continue
+                        src = c['args'][i]
+                        base = base_strip(src)
+                        if base in names and base != P('self') and not b.is_closure():
+                            if names.index(base) not in helper_params.setdefault(b.name, set()):
+                                helper_params[b.name].add(names.index(base))
+                                grew = True
+                        else:
+                            pt = (bb, src, t.get('line'), 'helper %s' % strip_generics(h).split('::')[-1])
+                            if pt not in points.setdefault(b.name, []):
+                                points[b.name].append(pt)
+        if not grew:
+            break
+    ctx.cache[key] = (points, helper_params)
+    return ctx.cache[key]
+
+
 @rule('C01-RESERVE', 'a capacity reservation on the target precedes every conversion into the positional (ordered) bag')
 def c01_reserve(ctx):
     out = RuleOut('C01-RESERVE')
     F = ctx.facts
     n = 0
-    for b in F.fn_bodies():
-        convs = []
-        for bb, t in b.calls():
-            if decl(t) in ('std::convert::Into::into', 'std::convert::From::from') and b.locals[t['dest']['l']]['head'] in BAG_HEADS and 'Ordered' in b.locals[t['dest']['l']]['head']:
-                convs.append((bb, t))
-        if not convs:
-            continue
+    points, helper_params = bag_conversion_points(ctx)
+    for hn, ps in sorted(helper_params.items()):
+        # a helper that converts its parameter must have a caller: the reservation is the callers' duty
+        if not any(callee_of(t) == hn for b in F.fn_bodies() for _, t in b.calls()):
+            out.fail('C01-RESERVE/%s/uncalled' % key_of(F.bodies[hn]), '%s converts its parameter into a positional bag but nothing calls it: the reservation cannot be located' % key_of(F.bodies[hn]),
+                     F.bodies[hn].where(), kind='undecided')
+    for bn in sorted(points):
+        b = F.bodies[bn]
         cfg = ctx.cfg(b)
         r = ctx.run(b.name)
         reserves = [(bb, c) for bb, c in r.call_sites() if 'reserve' in method(c['t'])]
-        for (bb, t) in convs:
+        for (bb, src, line, via) in points[bn]:
             n += 1
             key = 'C01-RESERVE/' + key_of(b)
-            src = r.calls[bb]['args'][0] if bb in r.calls else None
             # reservations on the value that is converted (or on what it was converted from)
             rel = [rb for rb, c in reserves if c['args'] and any(x == base_strip(c['args'][0]) or base_strip(c['args'][0]) == P('self') for x in r.deep_subterms(src))]
             ok = bool(rel) and bb not in cfg.reach(0, avoid=set(rel))
-            out.inst(key, ok, '%d reservation(s) before the conversion' % len(rel), sample={'fn': key_of(b), 'converted': t_str(src)[:160], 'reserve_blocks': len(rel)})
+            out.inst(key, ok, '%d reservation(s) before the %s' % (len(rel), via), sample={'fn': key_of(b), 'converted': t_str(src)[:160], 'reserve_blocks': len(rel), 'via': via})
             if not ok:
-                out.fail(key, '%s converts its target into a ConcurrentOrderedBag on a path without a preceding capacity reservation: positional writes past the current capacity are out of bounds / lost' % key_of(b), b.where(t.get('line')))
+                out.fail(key, '%s turns its target into a ConcurrentOrderedBag (%s) on a path without a preceding capacity reservation: positional writes past the current capacity are out of bounds / lost' % (key_of(b), via), b.where(line))
             # the reserved amount covers what will be written: `additional` APIs (Vec::reserve) need the input length,
             # `total` APIs (reserve_maximum_concurrent_capacity) need existing length + input length
             for rb, c in reserves:
                 if rb not in rel or len(c['args']) < 2:
                     continue
-                amount = c['args'][1]
                 total_api = 'capacity' in method(c['t'])
-                in_len = [x for x in subterms(amount) if x[0] == 'call' and method_of_term(x) in ('iter_len', 'try_get_len', 'size_hint')]
-                tgt_len = [x for x in subterms(amount) if x[0] == 'call' and method_of_term(x) in ('len', 'capacity') and x[2] and base_strip(x[2][0]) == P('self')]
                 known_unknown = any(pt[0] == 'discr' and pt[1][0] == 'call' and method_of_term(pt[1]) in ('iter_len', 'try_get_len') and f == ('eq', 0) for pt, f in c['pc'])
+                alts = list(alternatives(c['args'][1]))
+                any_len = any([x for x in subterms(a_) if x[0] == 'call' and method_of_term(x) in ('iter_len', 'try_get_len', 'size_hint')] for a_ in alts)
                 k2 = key + '/amount'
-                if not in_len:
-                    okk = known_unknown and const_int(amount)
-                    why = 'constant bound on the path where the input length is unknown' if okk else 'the reserved amount %s does not depend on the input length' % t_str(amount)[:100]
-                elif total_api and not tgt_len:
-                    okk = False
-                    why = 'reserve_maximum_concurrent_capacity takes a TOTAL capacity but is given %s, which omits the target\'s existing length' % t_str(amount)[:100]
-                else:
-                    okk = True
-                    why = 'amount %s' % t_str(amount)[:100]
-                out.inst(k2, okk, why, sample={'fn': key_of(b), 'reserve': method(c['t']), 'amount': t_str(amount)[:160]})
+                okk, why = True, ''
+                for amount in alts:
+                    in_len = [x for x in subterms(amount) if x[0] == 'call' and method_of_term(x) in ('iter_len', 'try_get_len', 'size_hint')]
+                    tgt_len = [x for x in subterms(amount) if x[0] == 'call' and method_of_term(x) in ('len', 'capacity') and x[2] and base_strip(x[2][0]) == P('self')]
+                    if not in_len:
+                        # a constant is the amount for the path on which the input length is unknown: either this very path, or
+                        # the other arm of the match on the length that produced the alternatives
+                        if const_int(amount) and (known_unknown or (len(alts) > 1 and any_len)):
+                            why = why or 'constant bound where the input length is unknown'
+                        else:
+                            okk, why = False, 'the reserved amount %s does not depend on the input length' % t_str(amount)[:100]
+                    elif total_api and not tgt_len:
+                        okk, why = False, 'reserve_maximum_concurrent_capacity takes a TOTAL capacity but is given %s, which omits the target\'s existing length' % t_str(amount)[:100]
+                    else:
+                        why = why or 'amount %s' % t_str(amount)[:100]
+                out.inst(k2, okk, why, sample={'fn': key_of(b), 'reserve': method(c['t']), 'amount': t_str(c['args'][1])[:160]})
                 if not okk:
                     out.fail(k2, '%s: %s: positional writes at `target.len() + position` can exceed the reserved capacity' % (key_of(b), why), b.where(c['line']))
     out.floor('bag_conversions', n, 2 if not ctx.fixture else 0)
@@ -1811,10 +1883,25 @@ def c05_source(ctx):
     for sn in S.sources:
         b = F.bodies[sn]
         r = ctx.run(sn)
-        for bb, c in r.call_sites():
-            if callee_of(c['t']).endswith('ParEmpty::<I>::new') or (method(c['t']) == 'new' and 'ParEmpty' in callee_of(c['t'])):
+        # what the source is built from: the iterator field of the computation it returns (constructors are inlined), or the
+        # argument of a constructor call that the inlining depth left standing
+        built = []
+        for alt in alternatives(r.ret) if r.ret is not None else []:
+            if alt[0] == 'variant' and ('adt:' + alt[1]) in S.par_impl_types:
+                try:
+                    built.append((alt[3][F.field_index(alt[1], 'iter')], b.d.get('line')))
+                except (KeyError, IndexError):
+                    pass
+            elif alt[0] == 'call' and alt[1] in S.constructors and alt[2]:
+                built.append((alt[2][0], b.d.get('line')))
+        if not built:
+            for bb, c in r.call_sites():
+                if callee_of(c['t']) in S.constructors and c['args']:
+                    built.append((c['args'][0], c['line']))
+        for (a, line_) in built:
+            if True:
+                c = {'line': line_}
                 n += 1
-                a = c['args'][0]
                 key = 'C05-SOURCE/' + key_of(b)
                 ok = (a == P('self')) or (a[0] == 'call' and tcallee(a).startswith('orx_concurrent_iter::')) or \
                     (a[0] == 'call' and method_of_term(a) in ('into_con_iter', 'con_iter', 'into_con_iter_x'))
@@ -1838,7 +1925,7 @@ def c05_source(ctx):
                 out.inst(key, ok, t_str(a)[:100], sample={'source': key_of(b), 'iterator': t_str(a)[:120]})
                 if not ok:
                     out.fail(key, '%s builds the pipeline from %s, not from a concurrent-iterator constructor of the dependency: a by-value iterator could be advanced by several threads' % (key_of(b), t_str(a)[:120]), b.where(c['line']))
-    out.floor('source_constructions', n, 20 if not ctx.fixture else 0)
+    out.floor('source_constructions', n, 8 if not ctx.fixture else 0)
     return out
 
 
@@ -2175,7 +2262,17 @@ def check_count_body(ctx, out, tb, depth=0):
                     return why
             return None
         if x[0] == 'call' and x[1] in ctx.facts.bodies and depth < 3 and ctx.facts.bodies[x[1]].d.get('ret_ty') == 'usize':
-            check_count_body(ctx, out, ctx.facts.bodies[x[1]], depth + 1)
+            hb = ctx.facts.bodies[x[1]]
+            if not ctx.cfg(hb).loops() and not hb.is_closure():
+                # a loop-free helper (`count_accepted(values, map, filter)`): judge what it returns for these arguments
+                y = I.apply(('fn', x[1]), list(x[2]))
+                if y is not None and not is_top(y) and y != x:
+                    for alt in alternatives(y):
+                        why = chain_count_ok(alt)
+                        if why:
+                            return why
+                    return None
+            check_count_body(ctx, out, hb, depth + 1)
             return None
         if not (x[0] == 'call' and is_iter_method(x, ('count',))):
             return 'per-pull value %s is not an Iterator::count over the pulled elements' % t_str(x)[:100]
